@@ -182,7 +182,8 @@ Module Doc.
 
   Definition is_operand (t : tok) : bool :=
     match t with
-    | TSym n _ => negb (is_reserved n)
+    | TSym n false => negb (is_reserved n)
+    | TSym _ true => false                  (* name: is a label, not an operand *)
     | TDotSym n => negb (is_reserved n)
     | TInt _ | TFloat _ | TBool _ | TStr _ | TPair _ | TArr _ | THash _ => true
     | TComma | TSemi | TComment _ | TOther _ => false
